@@ -142,8 +142,9 @@ pub fn card_cfgs(rng: &mut Rng, all_caps: bool) -> Vec<CardCfg> {
 
 fn pick_block(rng: &mut Rng, nblocks: u64, span: u64) -> u32 {
     let last = nblocks - span;
-    let cands = [0u64, 1, last, last.saturating_sub(1), last.saturating_sub(span), (1u64 << rng.below(22)).min(last), ((1u64 << rng.below(22)) + 1).min(last), ((1u64 << rng.below(22)).saturating_sub(1)).min(last), rng.below(last + 1)];
-    *rng.pick(&cands) as u32
+    let cands = [0u64, 1, last, last.saturating_sub(1), last.saturating_sub(span), 1u64 << rng.below(22), (1u64 << rng.below(22)) + 1, (1u64 << rng.below(22)).saturating_sub(1), rng.below(last + 1)];
+    // every candidate must leave room for the whole transfer
+    (*rng.pick(&cands)).min(last) as u32
 }
 
 fn kind_name(k: Kind) -> CardType {
